@@ -239,7 +239,7 @@ pub open spec fn step_set_permissions(s: Raw, t: Raw, sender: Seq<char>, spender
         let k = akey(spender_addr@);
         assert(allow_of(old(deps.storage).view(), spender_addr@) is Some ==> allow_of(old(deps.storage).view(), spender_addr@)->Some_0.balance.wf());
     }
-@insert_before "let res = Response::new()" 1
+@insert_before "~Response::new()" 1
     proof {
         let t = deps.storage.view();
         assert forall|a: Seq<char>| allow_of(t, a) is Some implies allow_of(t, a)->Some_0.balance.wf() by {
@@ -286,7 +286,7 @@ pub open spec fn step_set_permissions(s: Raw, t: Raw, sender: Seq<char>, spender
     proof {
         assert(allow_of(old(deps.storage).view(), spender_addr@) is Some ==> allow_of(old(deps.storage).view(), spender_addr@)->Some_0.balance.wf());
     }
-@insert_before "let res = Response::new()" 1
+@insert_before "~Response::new()" 1
     proof {
         let s = old(deps.storage).view();
         let t = deps.storage.view();
